@@ -391,3 +391,51 @@ T('c14-twin-t', 'C14', 'dst.t() instead of transpose(0, 1)',
   (DI, "    dst_tensor.transpose(0, 1)[idxs[0], idxs[1]] = dst_tensor[idxs[0], idxs[1]]", "    dst_tensor.t()[idxs[0], idxs[1]] = dst_tensor[idxs[0], idxs[1]]"))
 T('c14-twin-mirror-offset0', 'C14', 'mirror including the diagonal',
   (DI, "    idxs = torch.triu_indices(rows, rows, 1, device=dst_tensor.device)", "    idxs = torch.triu_indices(rows, rows, 0, device=dst_tensor.device)"))
+
+# ---------------------------------------------------------------- C01
+M('c01-missing-transpose', 'C01', 'TT-EIG', 'qg instead of qg.t() in the first product',
+  (LE, "        v1 = self.qg.t() @ grad @ self.qa\n        if self.prediv_eigenvalues:\n            v2 = v1 * self.dgda\n        else:\n            v2 = v1 / (\n                torch.outer(\n                    cast(torch.Tensor, self.dg),", "        v1 = self.qg @ grad @ self.qa\n        if self.prediv_eigenvalues:\n            v2 = v1 * self.dgda\n        else:\n            v2 = v1 / (\n                torch.outer(\n                    cast(torch.Tensor, self.dg),"))
+M('c01-back-transform-swapped', 'C01', 'TT-EIG', 'qa.t() dropped in the back transform',
+  (LE, "        self.grad = (self.qg @ v2 @ self.qa.t()).to(grad_type)", "        self.grad = (self.qg @ v2 @ self.qa).to(grad_type)"))
+M('c01-outer-swapped', 'C01', 'TT-EIG', 'outer(da, dg)',
+  (LE, "                torch.outer(\n                    cast(torch.Tensor, self.dg),\n                    cast(torch.Tensor, self.da),\n                )", "                torch.outer(\n                    cast(torch.Tensor, self.da),\n                    cast(torch.Tensor, self.dg),\n                )"))
+M('c01-no-damping', 'C01', 'TT-DAMP', 'damping dropped in the on-the-fly path',
+  (LE, "                    cast(torch.Tensor, self.da),\n                )\n                + damping\n            )", "                    cast(torch.Tensor, self.da),\n                )\n            )"))
+M('c01-damping-one-spectrum', 'C01', 'TT-DAMP', 'damping added to dg only',
+  (LE, "            self.dgda = 1 / (torch.outer(self.dg, self.da) + damping)", "            self.dgda = 1 / torch.outer(self.dg + damping, self.da)"))
+M('c01-multiply-spectrum', 'C01', 'TT-UNIT', 'multiply instead of divide',
+  (LE, "            v2 = v1 / (\n                torch.outer(", "            v2 = v1 * (\n                torch.outer("))
+M('c01-no-clamp-prediv', 'C01', 'TT-PSD', 'clamp only in the non-prediv branch (seed C01-1)',
+  (LE, "        self.dg = torch.clamp(self.dg, min=0.0)\n        if self.prediv_eigenvalues:\n            self.dgda = 1 / (torch.outer(self.dg, self.da) + damping)\n            self.dg = None\n            self.da = None", "        if self.prediv_eigenvalues:\n            self.dgda = 1 / (torch.outer(self.dg, self.da) + damping)\n            self.dg = None\n            self.da = None\n        else:\n            self.dg = torch.clamp(self.dg, min=0.0)"))
+M('c01-clamp-eps', 'C01', 'TT-PSD', 'A eigenvalues clamped from above',
+  (LE, "        self.da = torch.clamp(self.da, min=0.0)", "        self.da = torch.clamp(self.da, max=0.0)"))
+M('c01-dtype-after-cast', 'C01', 'TT-DTYPE', 'gradient dtype captured after the cast',
+  (LE, "        grad = self.module.get_grad()\n        grad_type = grad.dtype\n        grad = grad.to(self.qa.dtype)", "        grad = self.module.get_grad()\n        grad = grad.to(self.qa.dtype)\n        grad_type = grad.dtype"))
+M('c01-no-cast-back', 'C01', 'TT-DTYPE', 'inverse method result left in the inverse dtype',
+  (LI, "        self.grad = (self.g_inv @ grad @ self.a_inv).to(grad_type)", "        self.grad = self.g_inv @ grad @ self.a_inv"))
+M('c01-inverse-order', 'C01', 'TT-INV', 'A^-1 D G^-1',
+  (LI, "        self.grad = (self.g_inv @ grad @ self.a_inv).to(grad_type)", "        self.grad = (self.a_inv @ grad @ self.g_inv).to(grad_type)"))
+M('c01-inverse-no-damping', 'C01', 'TT-INV', 'G inverted without damping',
+  (LI, "        g = self.g_factor + d\n", "        g = self.g_factor\n"))
+M('c01-forgot-inverse', 'C01', 'TT-UNIT', 'A factor used instead of its inverse',
+  (LI, "        self.a_inv = torch.linalg.inv(a.to(torch.float32)).to(self.inv_dtype)", "        self.a_inv = a.to(torch.float32).to(self.inv_dtype)"))
+M('c01-scale-dropped', 'C01', 'OWN-WRITEBACK', 'clip scale computed but not applied',
+  (LB, "        if scale is not None:\n            grad = scale * grad\n        self.module.set_grad(grad)", "        self.module.set_grad(grad)"))
+M('c01-slot-not-cleared', 'C01', 'OWN-WRITEBACK', 'preconditioned gradient kept after write-back',
+  (LB, "        self.module.set_grad(grad)\n        self.grad = None", "        self.module.set_grad(grad)"))
+T('c01-twin-recip', 'C01', 'v1 * (1 / (outer + damping))',
+  (LE, "            v2 = v1 / (\n                torch.outer(\n                    cast(torch.Tensor, self.dg),\n                    cast(torch.Tensor, self.da),\n                )\n                + damping\n            )", "            v2 = v1 * (\n                1\n                / (\n                    torch.outer(\n                        cast(torch.Tensor, self.dg),\n                        cast(torch.Tensor, self.da),\n                    )\n                    + damping\n                )\n            )"))
+T('c01-twin-temporaries', 'C01', 'temporaries in the back transform',
+  (LE, "        self.grad = (self.qg @ v2 @ self.qa.t()).to(grad_type)", "        left = self.qg @ v2\n        out = left @ self.qa.t()\n        self.grad = out.to(grad_type)"))
+T('c01-twin-damping-first', 'C01', 'damping + outer',
+  (LE, "            self.dgda = 1 / (torch.outer(self.dg, self.da) + damping)", "            self.dgda = 1 / (damping + torch.outer(self.dg, self.da))"))
+
+# ---------------------------------------------------------------- TT-SYM / TT-BUF (C02, C03)
+M('c02-sym-eigvec', 'C02', 'TT-SYM', 'eigenvectors broadcast as symmetric',
+  (LE, "        self.qa = self.tdc.broadcast(  # type: ignore\n            self.qa,\n            src=src,\n            group=group,\n        )", "        self.qa = self.tdc.broadcast(  # type: ignore\n            self.qa,\n            src=src,\n            group=group,\n            symmetric=self.symmetric_factors and self.symmetry_aware,\n        )"))
+M('c03-placeholder-dtype', 'C03', 'TT-BUF', 'receiver allocates the inverse placeholder in the factor dtype',
+  (LI, "            self.a_inv = torch.empty(\n                self.a_factor.shape,\n                device=self.a_factor.device,\n                dtype=self.inv_dtype,\n            )", "            self.a_inv = torch.empty(\n                self.a_factor.shape,\n                device=self.a_factor.device,\n                dtype=self.a_factor.dtype,\n            )"))
+M('c03-placeholder-shape', 'C03', 'TT-BUF', 'dgda placeholder sized (A, G)',
+  (LE, "                    (self.g_factor.shape[0], self.a_factor.shape[0]),", "                    (self.a_factor.shape[0], self.g_factor.shape[0]),"))
+M('c03-sym-mismatch', 'C03', None, 'G inverse broadcast dense on... symmetric only in one layer method',
+  (LI, "        self.g_inv = self.tdc.broadcast(  # type: ignore\n            self.g_inv,\n            src=src,\n            group=group,\n            symmetric=self.symmetric_factors and self.symmetry_aware,\n        )", "        self.g_inv = self.tdc.broadcast(  # type: ignore\n            self.g_inv,\n            src=src,\n            group=group,\n            symmetric=get_rank() == src and self.symmetry_aware,\n        )"))
